@@ -664,6 +664,12 @@ impl<'de> Deserializer<'de> {
         V: Visitor<'de>,
     {
         self.unroll_type()?;
+        // As for principals: `empty <: service {..}` holds, but no value of type
+        // `empty` exists, so the bytes that follow are not a service reference.
+        check!(
+            matches!(self.wire_type.as_ref(), TypeInner::Service(_)),
+            "service"
+        );
         self.check_subtype()?;
         let mut bytes = vec![4u8];
         let id = PrincipalBytes::read(&mut self.input)?;
@@ -676,6 +682,11 @@ impl<'de> Deserializer<'de> {
         V: Visitor<'de>,
     {
         self.unroll_type()?;
+        // `empty <: func ..` holds, but no value of type `empty` exists
+        check!(
+            matches!(self.wire_type.as_ref(), TypeInner::Func(_)),
+            "function"
+        );
         self.check_subtype()?;
         if !self.read_bool_val()? {
             return Err(Error::msg("Opaque reference not supported"));
